@@ -209,7 +209,7 @@ class C13(runner.Check):
         if name == 'cmaes' and twin.cma_state(A) != before:
           res.bump('probe.cmaes-generation-boundary')
         if name == 'eagle':
-          pool = A._firefly_pool  # pylint: disable=protected-access
+          pool = getattr(A, '_firefly_pool', None)
           if getattr(pool, 'size', 0) >= getattr(pool, 'capacity', 1 << 30):
             res.bump('probe.eagle-pool-full')
         self._state_checks(name, A, B, step, viol, res)
